@@ -406,3 +406,10 @@ func (x *Execution) TraceLen() int {
 
 // X returns the thread's execution.
 func (t *T) X() *Execution { return t.x }
+
+// Note appends a non-yielding marker to the trace (thread id -1 entries are ignored by schedulers).
+func (t *T) Note(s string) {
+	t.x.mu.Lock()
+	t.x.Trace = append(t.x.Trace, fmt.Sprintf("%d:note:%s", t.ID, s))
+	t.x.mu.Unlock()
+}
